@@ -360,6 +360,11 @@ def oracle(rep, ms):
         ok_cls = {"InvalidCharsInPath"}
         if op[0] == "openbin":
             ok_cls.add("ValueError")
+        # two documented conditions at once (one argument climbs above the root, the other carries the NUL):
+        # either class is truthful (Ref.adm), whichever argument the method looks at first
+        paths = [x for x in (op[1:2] + (op[2:3] if op[0] in H.MUT2 else ())) if isinstance(x, str)]
+        if any(S._comps(x.replace("\0", "")) is None for x in paths):
+            ok_cls.add("IllegalBackReference")
         if ms.impl[0] != "err" or ms.impl[1] not in ok_cls or changed:
             rep.violation(_case(ms), "MountFS (%s).%s%r with a NUL in the path -> %r (members changed: %r); every filesystem "
                           "refuses such a path with InvalidCharsInPath and changes nothing"
